@@ -578,6 +578,66 @@ def process_fn(repo, glob, fs, log):
         what = f"{fs.name} (template line {tl})"
         if kw in ("block", "nocanary", "props", "macro"):
             continue
+        if kw == "localmacro":
+            # E4: a `macro_rules!` defined inside the function, single arm with `$x:ty`/`$x:expr`/`$x:ident` parameters, is
+            # expanded textually at every invocation (what rustc does); the definition is dropped. Payload lines
+            # `"find" => "replace"` are applied to every expansion (all occurrences, token matching).
+            mname = rest.split()[0]
+            # definition: macro_rules ! name { (params) => {{ body }} ; }
+            dk = None
+            for k in range(tlo, thi - 3):
+                if toks[k].kind == "ident" and toks[k].text == "macro_rules" and toks[k + 1].text == "!" and toks[k + 2].text == mname and toks[k + 3].kind == "open":
+                    dk = k; break
+            if dk is None:
+                raise VxError(f"lost anchor: {what}: local macro `{mname}` not found")
+            dopen = dk + 3; dclose = br[dopen]
+            popen = dopen + 1
+            if not (toks[popen].kind == "open" and toks[popen].text == "("):
+                raise VxError(f"unsupported: local macro `{mname}`: expected a single `( params ) => {{ .. }}` arm")
+            pclose = br[popen]
+            params = []
+            k = popen + 1
+            while k < pclose:
+                if toks[k].kind == "punct" and toks[k].text == "$" and toks[k + 1].kind == "ident":
+                    params.append(toks[k + 1].text); k += 2
+                    continue
+                k += 1
+            # arrow then body group
+            bopen = pclose + 1
+            while bopen < dclose and toks[bopen].kind != "open": bopen += 1
+            bclose = br[bopen]
+            if any(t.kind == "open" and t.text == "(" and kk > bclose for kk, t in enumerate(toks[bclose:dclose], bclose)):
+                raise VxError(f"unsupported: local macro `{mname}` has more than one arm")
+            body = src[toks[bopen].start:toks[bclose].end]
+            # `{{ .. }}` -> a block expression `{ .. }`
+            if toks[bopen + 1].kind == "open" and toks[bopen + 1].text == "{" and br[bopen + 1] == bclose - 1:
+                body = src[toks[bopen + 1].start:toks[bclose - 1].end]
+            dend = toks[dclose].end
+            ed.add(toks[dk].start, dend, "", "E4", "localmacro def"); covered.append((toks[dk].start, dend))
+            logrule("E4", toks[dk].start, f"macro_rules! {mname} {{..}}", "(expanded at its invocations)")
+            posts = []
+            for pl in payload:
+                pq = [x[1] for x in parse_quoted(pl) if x[0] == "q"]
+                if len(pq) == 2: posts.append(pq)
+            for m in macros:
+                if m["name"] != mname or toks[m["tok"]].start < dend and toks[m["tok"]].start >= toks[dk].start: continue
+                if m["tok"] == dk + 2: continue
+                args = split_top_commas(toks, br, m["open"] + 1, m["close"])
+                if len(args) != len(params):
+                    raise VxError(f"unsupported: local macro `{mname}` invoked with {len(args)} arguments, {len(params)} parameters")
+                exp = body
+                for pn, (a0, a1) in zip(params, args):
+                    exp = re.sub(r"\$" + pn + r"\b", tok_text(src, toks, a0, a1).strip(), exp)
+                for (fa, fb) in posts:
+                    while True:
+                        hits = find_text(exp, 0, len(exp), fa, "all", what)
+                        if not hits: break
+                        s1, e1 = hits[0]
+                        exp = exp[:s1] + fb + exp[e1:]
+                        if fa in fb: break
+                s0, e0 = toks[m["tok"]].start, toks[m["close"]].end
+                ed.add(s0, e0, exp, "E4", "localmacro"); covered.append((s0, e0)); logrule("E4", s0, src[s0:e0], exp[:200])
+            continue
         if kw == "addarg":
             # E13: `//@addarg "self.sender.send" "&mut self.hist"`: every call of that path gets the extra (ghost state)
             # argument appended; zero-width, so it composes with any other rewrite of the call
